@@ -115,6 +115,32 @@ let sop_of_arg (a : string) : sop =
   | _ -> failwith "op kind"
 let rec idx_of_var v l i = match l with [] -> -1 | x :: r -> if x = v then i else idx_of_var v r (i + 1)
 
+(* ---- distinfo ---- *)
+let rec alg_idx a l i = match l with [] -> -1 | x :: r -> if x = a then i else alg_idx a r (i + 1)
+let aidx a = string_of_int (alg_idx a all_algs 0)
+let show_dentry (e : dentry) =
+  arg_of_str e.ename ^ "~" ^ (match e.esize with None -> "N" | Some n -> string_of_z n) ^ "~"
+  ^ String.concat "," (List.map (fun (a, h) -> aidx a ^ "=" ^ arg_of_str h) e.esums)
+let dump_di (d : distinfo) =
+  "R=" ^ (match d.rcsid with None -> "N" | Some s -> arg_of_str s)
+  ^ "|D=" ^ String.concat ";" (List.map show_dentry d.dists)
+  ^ "|P=" ^ String.concat ";" (List.map show_dentry d.patches)
+let dentry_of_arg (a : string) : dentry =
+  match String.split_on_char '~' a with
+  | name :: size :: rest ->
+      let sums = match rest with s :: _ -> s | [] -> "" in
+      let cs = if sums = "" then [] else
+        List.map (fun s -> match String.index_opt s '=' with
+                           | Some i -> (List.nth all_algs (int_of_string (String.sub s 0 i)),
+                                        str_of_arg (String.sub s (i + 1) (String.length s - i - 1)))
+                           | None -> failwith "sum") (String.split_on_char ',' sums) in
+      { ename = str_of_arg name; esize = (if size = "N" then None else Some (z_of_decimal size)); esums = cs }
+  | _ -> failwith "entry"
+let show_verr = function
+  | VIo -> "E:Io" | VNotFound -> "E:NotFound" | VMissingSize -> "E:MissingSize" | VMissingChecksum -> "E:MissingChecksum"
+  | VSize (e, a) -> "E:Size:" ^ string_of_z e ^ ":" ^ string_of_z a
+  | VChecksum _ -> "E:Checksum"
+
 let run (op : string) (args : string list) : string =
   match op, args with
   | "dewey.new", [p] ->
@@ -171,6 +197,43 @@ let run (op : string) (args : string list) : string =
              | WErr st' -> (List.rev (("err:" ^ string_of_int (List.length st'.entries)) :: acc), st')) in
       let (w, st) = go stream_init chunks [] in
       "W=" ^ String.concat "," w ^ "|P=" ^ arg_of_str (print_stream st.entries)
+  | "di.parse", [b] -> dump_di (di_from_bytes (str_of_arg b))
+  | "di.roundtrip", [b] -> arg_of_str (di_as_bytes (di_from_bytes (str_of_arg b)))
+  | "di.classify", [n] -> (match classify (str_of_arg n) with Distfile -> "D" | Patchfile -> "P")
+  | "di.find", [b; p] ->
+      (match find_entry (di_from_bytes (str_of_arg b)) (str_of_arg p) with
+       | Some e -> "F:" ^ arg_of_str e.ename | None -> "E:NotFound")
+  | "di.build", r :: ents ->
+      let d0 = { rcsid = (if r = "N" then None else Some (str_of_arg r)); dists = []; patches = [] } in
+      let es = List.map dentry_of_arg ents in
+      let d = List.fold_left di_insert d0 es in
+      let out = di_as_bytes d in
+      "B=" ^ arg_of_str out ^ "#" ^ dump_di (di_from_bytes out) ^ "#E=" ^ String.concat ";" (List.map (fun e -> arg_of_str (entry_bytes e)) es)
+  | "di.verify", [b; p; content; what] ->
+      let d = di_from_bytes (str_of_arg b) in
+      let c = if content = "N" then None else Some (str_of_arg content) in
+      if what = "S" then
+        (match verify_size d (str_of_arg p) c with
+         | Inl (VOkSize n) -> "OK:" ^ string_of_z n
+         | Inl _ -> "?"
+         | Inr (VSize (e, a)) ->
+             (match find_entry d (str_of_arg p) with
+              | Some en -> "E:Size:" ^ string_of_z e ^ ":" ^ string_of_z a ^ ":" ^ arg_of_str en.ename | None -> "?")
+         | Inr e -> show_verr e)
+      else
+        (match verify_checksum d (str_of_arg p) (List.nth all_algs (int_of_string what)) c with
+         (* the digest itself is outside the model: report algorithm, recorded hash, pre-image, entry name *)
+         | Inl (((a, h), pre), name) -> "HASH:" ^ aidx a ^ ":" ^ arg_of_str h ^ ":" ^ arg_of_str pre ^ ":" ^ arg_of_str name
+         | Inr e -> show_verr e)
+  | "dg.name", [s] ->
+      (match alg_parse (str_of_arg s) with
+       | Some a -> aidx a ^ ":" ^ arg_of_str (alg_name a) | None -> "E:Unsupported")
+  | "dg.str", [a; s] -> "PRE:" ^ a ^ ":" ^ s
+  | ("dg.file" | "dg.patch"), a :: evs ->
+      let ev e = if e = "I" then EIntr else if e = "X" then EErr
+                 else EData (str_of_arg (String.sub e 2 (String.length e - 2))) in
+      let pre = (if op = "dg.file" then hash_file_pre else hash_patch_pre) (List.map ev evs) in
+      (match pre with Some p -> "PREB:" ^ a ^ ":" ^ arg_of_str p | None -> "E:Io")
   | _ -> "UNKNOWN-OP"
 
 let () =
